@@ -389,8 +389,10 @@ def gen_replays(job):
     cmd = kani_cmd(job, ["-Z", "concrete-playback", "--concrete-playback=print"])
     with open(log, "w") as f:
         try:
+            # playback mode drops formula slicing: it needs several times the memory and time of the
+            # verification run (measured: 57 s / 1.6 GB -> 346 s / 17 GB); replays run one at a time
             subprocess.run(cmd, cwd=HARNESS, env=env_base(), stdout=f, stderr=subprocess.STDOUT,
-                           preexec_fn=_limit(job.mem_gb + 4), timeout=job.timeout * 2 + 120)
+                           preexec_fn=_limit(max(40, job.mem_gb + 4)), timeout=max(2400, job.timeout * 3))
         except subprocess.TimeoutExpired:
             return []
     text = open(log, errors="replace").read()
